@@ -10,36 +10,42 @@ Definition w_class : str := [99;108;97;115;115].     (* "class" *)
 Definition w_x2 : str := [120;178].                  (* "x²" *)
 Definition w_a_nl : str := [97;10].                  (* "a\n" *)
 
-Lemma refuted_F20a : guard_F20a w_none = false /\ valid_name (class_name w_none) = false.
+(* regression examples: the witnesses of the fixed findings F20a, F20b, F20c, F20g, F20i now meet the spec *)
+Lemma fixed_F20a : valid_name (class_name w_none) = true /\ class_name w_none = [78;111;110;101;95].   (* None_ *)
 Proof. split; vm_compute; reflexivity. Qed.
-Lemma refuted_F20b : has_alnum w_dollar = false /\ valid_name (method_name w_dollar) = false.
+Lemma fixed_F20b : method_name w_dollar = s_unnamed /\ valid_name (method_name w_dollar) = true.
 Proof. split; vm_compute; reflexivity. Qed.
-
-(* "$" never reaches an oracle: refuted for ANY behaviour of the Unicode database *)
-Lemma refuted_F20c : forall u_word u_lower u_isdigit u_ign u_cased,
-  has_alnum w_dollar = false /\ module_name u_word u_lower u_isdigit u_ign u_cased w_dollar = [].
+Lemma fixed_F20c : forall u_word u_lower u_isdigit u_ign u_cased,
+  module_name u_word u_lower u_isdigit u_ign u_cased w_dollar = s_unnamed /\ valid_name s_unnamed = true.
 Proof. intros. split; vm_compute; reflexivity. Qed.
+Lemma fixed_F20g : forall u_word u_lower u_ign u_cased,
+  tag_attr_name u_word u_lower u_ign u_cased w_class = w_class ++ [95]
+  /\ valid_name (tag_attr_name u_word u_lower u_ign u_cased w_class) = true
+  /\ tag_attr_name u_word u_lower u_ign u_cased w_dollar = s_unnamed.
+Proof. intros. repeat split; vm_compute; reflexivity. Qed.
+Lemma fixed_F20i : is_valid_python_identifier w_a_nl = false.
+Proof. vm_compute. reflexivity. Qed.
+
+(* still open *)
 Lemma refuted_F20d : forall u_word u_lower u_title u_ign u_cased,
   first_alnum_not_digit w_1st = false
   /\ is_ident (tag_attr_name u_word u_lower u_ign u_cased w_1st) = false
-  /\ is_ident (tag_class_name u_word u_lower u_title u_ign u_cased w_1st) = false
-  /\ tag_attr_name u_word u_lower u_ign u_cased w_dollar = [].
+  /\ is_ident (tag_class_name u_word u_lower u_title u_ign u_cased w_1st) = false.
 Proof. intros. repeat split; vm_compute; reflexivity. Qed.
-Lemma refuted_F20g : forall u_word u_lower u_ign u_cased,
-  is_kw (tag_attr_name u_word u_lower u_ign u_cased w_class) = true.
-Proof. intros. vm_compute. reflexivity. Qed.
-(* U+00B2 SUPERSCRIPT TWO: Python's re says \w, str.lower leaves it alone (the run's tables confirm both) *)
+(* U+00B2 SUPERSCRIPT TWO / U+00BD ONE HALF: Python's re says \w, str.lower leaves them alone, isdigit('½') is False
+   (the run's tables confirm all three) *)
+Definition w_half : str := [189].
 Lemma refuted_F20h :
-  let u_word := fun c => c =? 178 in let id1 := fun c : N => [c] in let no := fun _ : N => false in
-  no_foreign_word u_word w_x2 = false /\ tag_attr_name u_word id1 no no w_x2 = w_x2 /\ is_ident w_x2 = false.
-Proof. repeat split; vm_compute; reflexivity. Qed.
-Lemma refuted_F20i : no_trailing_lf w_a_nl = false /\ is_valid_python_identifier w_a_nl = true /\ is_ident w_a_nl = false.
+  let u_word := fun c => (c =? 178) || (c =? 189) in let id1 := fun c : N => [c] in let no := fun _ : N => false in
+  no_foreign_word u_word w_x2 = false /\ tag_attr_name u_word id1 no no w_x2 = w_x2 /\ is_ident w_x2 = false
+  /\ has_alnum w_half = false /\ no_foreign_word u_word w_half = false
+  /\ module_name u_word id1 no no no w_half = w_half /\ is_ident w_half = false.
 Proof. repeat split; vm_compute; reflexivity. Qed.
 
 (* non-vacuity: an ordinary camel-case name meets every guard and is transformed non-trivially *)
 Definition w_ok : str := [103;101;116;72;84;84;80;82;101;115;112;111;110;115;101;50].   (* getHTTPResponse2 *)
 Lemma guards_nonvacuous :
-  guard_F20a w_ok = true /\ has_alnum w_ok = true /\ first_alnum_not_digit w_ok = true
+  has_alnum w_ok = true /\ first_alnum_not_digit w_ok = true
   /\ class_name w_ok = [71;101;116;72;116;116;112;82;101;115;112;111;110;115;101;50]            (* GetHttpResponse2 *)
   /\ method_name w_ok = [103;101;116;95;104;116;116;112;95;114;101;115;112;111;110;115;101;50]  (* get_http_response2 *)
   /\ module_name_tok w_ok = [103;101;116;95;104;116;116;112;95;114;101;115;112;111;110;115;101;95;50]. (* get_http_response_2 *)
@@ -332,7 +338,7 @@ Definition class_pre (s : str) : str :=
 
 Lemma class_name_unfold : forall s,
   class_name s = let c2 := class_pre s in
-                 if is_kw (map lower_ascii c2) || is_reserved (map lower_ascii c2) then c2 ++ [95] else c2.
+                 if is_kw c2 || is_kw (map lower_ascii c2) || is_reserved (map lower_ascii c2) then c2 ++ [95] else c2.
 Proof. reflexivity. Qed.
 
 Lemma class_pre_ident : forall s, is_ident (class_pre s) = true.
@@ -356,47 +362,26 @@ Qed.
 Theorem class_name_ident : forall s, is_ident (class_name s) = true.
 Proof.
   intro s. rewrite class_name_unfold. cbv zeta.
-  destruct (is_kw (map lower_ascii (class_pre s)) || is_reserved (map lower_ascii (class_pre s))).
+  destruct (is_kw (class_pre s) || is_kw (map lower_ascii (class_pre s)) || is_reserved (map lower_ascii (class_pre s))).
   - apply is_ident_snoc; [apply class_pre_ident | reflexivity].
   - apply class_pre_ident.
 Qed.
 
-(* ... and the only keywords it can be are the capitalised ones (None, True, False): F20a *)
-Theorem class_name_kw_only_cap : forall s, is_kw (class_name s) = true -> In (class_name s) cap_keywords.
-Proof.
-  intros s H. rewrite class_name_unfold in *. cbv zeta in *.
-  destruct (is_kw (map lower_ascii (class_pre s)) || is_reserved (map lower_ascii (class_pre s))) eqn:E.
-  - rewrite not_kw_snoc_us in H. discriminate.
-  - apply orb_false_iff in E. destruct E as [E _].
-    unfold cap_keywords. apply filter_In. split; [apply is_kw_In; exact H|].
-    unfold is_kw in E. rewrite E. reflexivity.
-Qed.
-
 (* generic helpers: keep the big table terms out of rewrite/destruct (they are only passed to [exact]) *)
-Lemma negb_mem_not_in : forall x l, negb (mem_str x l) = true -> ~ In x l.
-Proof.
-  intros x l H Hin. apply (proj2 (mem_str_In x l)) in Hin. rewrite Hin in H. discriminate H.
-Qed.
 Lemma valid_name_intro : forall n, is_ident n = true -> (is_kw n = true -> False) -> valid_name n = true.
 Proof.
   intros n H1 H2. unfold valid_name. rewrite H1. destruct (is_kw n); [exfalso; apply H2; reflexivity | reflexivity].
 Qed.
 
-(* NOTE: converting [guard_F20a s = true] with its unfolding inside a larger term sends the kernel into
-   evaluating the tables; the unfolding lemma below (checked instantly) keeps every later step syntactic. *)
-Lemma guard_F20a_unfold : forall s, guard_F20a s = negb (mem_str (class_name s) cap_keywords).
-Proof. intro s. reflexivity. Qed.
-Lemma guard_F20a_not_in : forall s, guard_F20a s = true -> ~ In (class_name s) cap_keywords.
-Proof. intros s G. rewrite guard_F20a_unfold in G. exact (negb_mem_not_in (class_name s) cap_keywords G). Qed.
-
-Theorem class_name_valid_partial : forall s, guard_F20a s = true -> valid_name (class_name s) = true.
+(* ... and never a keyword (F20a fixed: the capitalised name itself is tested): FULL, for all code-point strings *)
+Theorem class_name_valid : forall s, valid_name (class_name s) = true.
 Proof.
-  intros s G. apply valid_name_intro; [apply class_name_ident|].
-  intro E. exact (guard_F20a_not_in s G (class_name_kw_only_cap s E)).
+  intro s. apply valid_name_intro; [apply class_name_ident|].
+  rewrite class_name_unfold. cbv zeta.
+  destruct (is_kw (class_pre s) || is_kw (map lower_ascii (class_pre s)) || is_reserved (map lower_ascii (class_pre s))) eqn:E.
+  - intro H. rewrite not_kw_snoc_us in H. discriminate H.
+  - intro H. rewrite H in E. discriminate E.
 Qed.
-
-Lemma cap_keywords_are : cap_keywords = [[70;97;108;115;101]; [78;111;110;101]; [84;114;117;101]].
-Proof. vm_compute. reflexivity. Qed.
 
 (* ================================================================= sanitize_method_name *)
 Lemma camel1_In : forall s c, In c s -> In c (camel1 s).
@@ -472,18 +457,21 @@ Proof.
   exists c. split; [exact H3 | apply alnum_not_us, Hc].
 Qed.
 
-(* F20b excluded: a name with an ASCII letter or digit always gives a valid method / field / parameter name *)
-Theorem method_name_valid_partial : forall s, has_alnum s = true -> valid_name (method_name s) = true.
+Lemma unnamed_ok : s_unnamed <> [] /\ forallb is_ident_char s_unnamed = true /\ is_ident s_unnamed = true
+  /\ starts_digit s_unnamed = false.
+Proof. repeat split; try discriminate; vm_compute; reflexivity. Qed.
+
+Lemma or_unnamed_ok : forall m, forallb is_ident_char m = true ->
+  or_unnamed m <> [] /\ forallb is_ident_char (or_unnamed m) = true.
 Proof.
-  intros s H. unfold method_name. apply finish_snake_valid; [apply method_core_nonempty, H | apply method_core_chars].
+  intros [|c m] H; simpl; [split; apply unnamed_ok | split; [discriminate | exact H]].
 Qed.
 
-(* without the guard the result is still either empty or valid: the ONLY failure is the empty name *)
-Theorem method_name_empty_or_valid : forall s, method_name s = [] \/ valid_name (method_name s) = true.
+(* F20b fixed: FULL — every string gives a valid method / field / parameter name *)
+Theorem method_name_valid : forall s, valid_name (method_name s) = true.
 Proof.
-  intro s. unfold method_name. destruct (method_core s) eqn:E.
-  - left. vm_compute. reflexivity.
-  - right. apply finish_snake_valid; [discriminate | rewrite <- E; apply method_core_chars].
+  intro s. unfold method_name. destruct (or_unnamed_ok _ (method_core_chars s)) as [H1 H2].
+  apply finish_snake_valid; assumption.
 Qed.
 
 (* ================================================================= sanitize_module_name *)
@@ -500,15 +488,14 @@ Lemma join_nonempty : forall sep w ws, w <> [] -> join sep (w :: ws) <> [].
 Proof. intros sep [|c w] ws H; [congruence|]. discriminate. Qed.
 
 Lemma module_of_tokens_valid : forall ws,
-  ws <> [] -> Forall good_word ws -> valid_name (module_of_tokens ws) = true.
+  Forall good_word ws -> valid_name (module_of_tokens ws) = true.
 Proof.
-  intros ws Hne Hg. unfold module_of_tokens. rewrite (filter_nonempty_good ws Hg).
-  apply finish_snake_valid.
-  - destruct ws as [|w ws]; [congruence|]. simpl map. apply join_nonempty.
-    inversion Hg as [|? ? [Hw _] _]; subst. destruct w; [congruence | discriminate].
-  - apply join_us_chars. intros w Hw. apply in_map_iff in Hw. destruct Hw as [w0 [<- Hw0]].
+  intros ws Hg. unfold module_of_tokens. rewrite (filter_nonempty_good ws Hg).
+  assert (Hc : forallb is_ident_char (join [95] (map (map lower_ascii) ws)) = true).
+  { apply join_us_chars. intros w Hw. apply in_map_iff in Hw. destruct Hw as [w0 [<- Hw0]].
     rewrite Forall_forall in Hg. destruct (Hg w0 Hw0) as [_ Hal].
-    eapply forallb_map_imp; [|exact Hal]. intros x Hx. apply is_alnum_ident_char, lower_ascii_alnum, Hx.
+    eapply forallb_map_imp; [|exact Hal]. intros x Hx. apply is_alnum_ident_char, lower_ascii_alnum, Hx. }
+  destruct (or_unnamed_ok _ Hc) as [H1 H2]. apply finish_snake_valid; assumption.
 Qed.
 
 Lemma forallb_filter_id : forall {A} (p : A -> bool) l, forallb p l = true -> filter p l = l.
@@ -528,14 +515,13 @@ Section ModuleProofs.
     module_name u_word u_lower u_isdigit u_ign u_cased s = module_name_tok s.
   Proof. intros s H. unfold module_name, module_name_tok. destruct (tokens s); [congruence | reflexivity]. Qed.
 
-  (* F20c excluded: with an ASCII letter or digit in the name the module name is valid, whatever the oracles *)
-  Theorem module_name_valid_partial : forall s, has_alnum s = true ->
+  (* with an ASCII letter or digit in the name the module name is valid, whatever the oracles *)
+  Theorem module_name_valid_alnum : forall s, has_alnum s = true ->
     valid_name (module_name u_word u_lower u_isdigit u_ign u_cased s) = true.
   Proof.
     intros s H. rewrite module_name_tok_path by (apply tokens_nonempty, H).
-    apply module_of_tokens_valid; [apply tokens_nonempty, H | apply tokens_good].
+    apply module_of_tokens_valid, tokens_good.
   Qed.
-
 End ModuleProofs.
 
   (* ================================================================= enum member names *)
@@ -707,7 +693,7 @@ Qed.
 Lemma class_name_cases : forall s, class_name s = class_pre s \/ class_name s = class_pre s ++ [95].
 Proof.
   intro s. rewrite class_name_unfold. cbv zeta.
-  destruct (is_kw (map lower_ascii (class_pre s)) || is_reserved (map lower_ascii (class_pre s))); [right | left]; reflexivity.
+  destruct (is_kw (class_pre s) || is_kw (map lower_ascii (class_pre s)) || is_reserved (map lower_ascii (class_pre s))); [right | left]; reflexivity.
 Qed.
 
 Lemma class_name_has_alnum : forall s, has_alnum (class_name s) = true.
@@ -811,34 +797,121 @@ Section TagProofs.
     rewrite rev_app_distr. simpl. eauto.
   Qed.
 
-  (* F20d / F20h excluded: tag without foreign word characters, with an ASCII letter/digit, the first of which is
-     not a digit  ==>  the attribute name is an identifier.  (Whether it is a keyword is F20g: no handling at all.) *)
-  Theorem tag_attr_name_ident_partial : forall s,
-    no_foreign_word u_word s = true -> has_alnum s = true -> first_alnum_not_digit s = true ->
-    is_ident (tag_attr_name u_word u_lower u_ign u_cased s) = true.
+  Lemma kw_suffix_valid : forall a, is_ident a = true -> valid_name (if is_kw a then a ++ [95] else a) = true.
   Proof.
-    intros s G Ha Hd. unfold tag_attr_name, py_lower.
+    intros a H. destruct (is_kw a) eqn:E.
+    - unfold valid_name. rewrite is_ident_snoc by (auto). rewrite not_kw_snoc_us. reflexivity.
+    - unfold valid_name. rewrite H, E. reflexivity.
+  Qed.
+
+  (* F20b-empty and F20g fixed; F20d (digit) / F20h (foreign word characters) excluded:
+     the attribute name is a valid, non-keyword identifier — no letter or digit needed any more *)
+  Theorem tag_attr_name_valid_partial : forall s,
+    no_foreign_word u_word s = true -> first_alnum_not_digit s = true ->
+    valid_name (tag_attr_name u_word u_lower u_ign u_cased s) = true.
+  Proof.
+    intros s G Hd. unfold tag_attr_name. cbv zeta. apply kw_suffix_valid. unfold py_lower.
     pose proof (sub_nonword_chars s false G) as Hch.
     rewrite py_lower_go_ascii by (eapply forallb_imp; [apply ident_char_ascii | exact Hch]).
     pose proof (sub_nonword_first s false G) as Hf.
-    apply has_alnum_ex in Ha. destruct Ha as [a [Hin Haa]].
-    destruct (dropwhile_head (fun c => negb (is_alnum c)) s) as [c [r [E Hc]]].
-    { exists a. split; [exact Hin | rewrite Haa; reflexivity]. }
-    apply negb_false_iff in Hc. rewrite E in Hf.
-    unfold first_alnum_not_digit in Hd. rewrite E in Hd. simpl in Hd. apply negb_true_iff in Hd.
-    destruct (strip_us_from_dropwhile _ _ _ Hf) as [r' Es].
-    { rewrite lower_ascii_us. apply alnum_not_us, Hc. }
-    rewrite Es. apply is_ident_of_chars.
-    - assert (Hl : is_alnum (lower_ascii c) = true) by (apply lower_ascii_alnum, Hc).
-      assert (Hnd : is_digit (lower_ascii c) = false).
-      { revert Hd Hc. unfold lower_ascii, is_alnum, is_alpha, is_upper, is_lower, is_digit.
-        destruct ((65 <=? c) && (c <=? 90)) eqn:Eu; lia. }
-      destruct (ident_char_cases _ (is_alnum_ident_char _ Hl)) as [H|H]; [congruence | exact H].
-    - apply forallb_forall. intros x Hx.
-      assert (Hx' : In x (strip_us (map lower_ascii (sub_nonword u_word false s)))) by (rewrite Es; right; exact Hx).
-      apply strip_us_In in Hx'. apply in_map_iff in Hx'. destruct Hx' as [y [<- Hy]].
-      apply lower_ascii_ident_char. rewrite forallb_forall in Hch. apply Hch, Hy.
+    unfold first_alnum_not_digit in Hd.
+    destruct (dropwhile (fun c => negb (is_alnum c)) s) as [|c r] eqn:E.
+    - (* no ASCII letter or digit: everything is stripped, the fallback name is used *)
+      unfold strip_us. rewrite Hf. simpl. apply unnamed_ok.
+    - assert (Hc : is_alnum c = true).
+      { assert (Hin : In c (dropwhile (fun c => negb (is_alnum c)) s)) by (rewrite E; left; reflexivity).
+        clear -E. revert E. induction s as [|x s IH]; simpl; [discriminate|].
+        destruct (is_alnum x) eqn:Ex; simpl; [intro H; inversion H; subst; exact Ex | exact IH]. }
+      simpl in Hd. apply negb_true_iff in Hd.
+      destruct (strip_us_from_dropwhile _ _ _ Hf) as [r' Es].
+      { rewrite lower_ascii_us. apply alnum_not_us, Hc. }
+      rewrite Es. cbn [or_unnamed]. apply is_ident_of_chars.
+      + assert (Hl : is_alnum (lower_ascii c) = true) by (apply lower_ascii_alnum, Hc).
+        assert (Hnd : is_digit (lower_ascii c) = false).
+        { revert Hd Hc. unfold lower_ascii, is_alnum, is_alpha, is_upper, is_lower, is_digit.
+          destruct ((65 <=? c) && (c <=? 90)) eqn:Eu; lia. }
+        destruct (ident_char_cases _ (is_alnum_ident_char _ Hl)) as [H|H]; [congruence | exact H].
+      + apply forallb_forall. intros x Hx.
+        assert (Hx' : In x (strip_us (map lower_ascii (sub_nonword u_word false s)))) by (rewrite Es; right; exact Hx).
+        apply strip_us_In in Hx'. apply in_map_iff in Hx'. destruct Hx' as [y [<- Hy]].
+        apply lower_ascii_ident_char. rewrite forallb_forall in Hch. apply Hch, Hy.
   Qed.
+
+  (* ---------------- sanitize_module_name, fallback path (partial: F20h) ---------------- *)
+  Variable u_isdigit : N -> bool.
+
+  Lemma split_go_pieces : forall (P sep : N -> bool) s cur insep,
+    (forall c, In c s -> sep c = false -> P c = true) -> forallb P cur = true ->
+    forall w, In w (split_go sep cur insep s) -> forallb P w = true.
+  Proof.
+    induction s as [|c s IH]; intros cur insep Hs Hcur w Hin; simpl in Hin.
+    - destruct Hin as [<-|[]]. rewrite forallb_forall in *. intros x Hx. apply Hcur. apply in_rev. exact Hx.
+    - assert (Hs' : forall c0, In c0 s -> sep c0 = false -> P c0 = true) by (intros c0 H0; apply Hs; right; exact H0).
+      destruct (sep c) eqn:E.
+      + destruct insep.
+        * eapply IH; eauto.
+        * destruct Hin as [<-|Hin].
+          -- rewrite forallb_forall in *. intros x Hx. apply Hcur. apply in_rev. exact Hx.
+          -- eapply (IH [] true); eauto.
+      + eapply (IH (c :: cur) false); eauto. simpl. rewrite (Hs c (or_introl eq_refl) E), Hcur. reflexivity.
+  Qed.
+
+  Lemma kw_res_suffix_valid : forall m, is_ident m = true ->
+    valid_name (if is_kw m || is_reserved m then m ++ [95] else m) = true.
+  Proof.
+    intros m H. destruct (is_kw m || is_reserved m) eqn:E.
+    - unfold valid_name. rewrite is_ident_snoc by (auto). rewrite not_kw_snoc_us. reflexivity.
+    - apply orb_false_iff in E. destruct E as [E _]. unfold valid_name. rewrite H, E. reflexivity.
+  Qed.
+
+  (* F20c fixed; F20h excluded: a name with an ASCII letter or digit (no oracle consulted), or without any
+     non-ASCII word character, gives a valid module name *)
+  Theorem module_name_valid_partial : forall s,
+    has_alnum s || no_foreign_word u_word s = true ->
+    valid_name (module_name u_word u_lower u_isdigit u_ign u_cased s) = true.
+  Proof.
+    intros s G. unfold module_name. destruct (tokens s) as [|t ts] eqn:Et.
+    2:{ rewrite <- Et. apply module_of_tokens_valid, tokens_good. }
+    assert (Ha : has_alnum s = false).
+    { destruct (has_alnum s) eqn:E; [|reflexivity]. exfalso. exact (tokens_nonempty s E Et). }
+    rewrite Ha in G. simpl in G. cbv zeta.
+    (* every surviving character is an underscore *)
+    assert (Hw : forall w, In w (split_on (fun c => negb (W c)) s) -> forallb is_us w = true).
+    { intros w Hin. unfold split_on in Hin. eapply split_go_pieces; [| |exact Hin]; [|reflexivity].
+      intros c Hc Hsep. apply negb_false_iff in Hsep.
+      pose proof (guard_word_ident s c G Hc Hsep) as Hic.
+      assert (Hna : is_alnum c = false).
+      { destruct (is_alnum c) eqn:Ec; [|reflexivity]. exfalso.
+        unfold has_alnum in Ha. assert (existsb is_alnum s = true) by (apply existsb_exists; eauto). congruence. }
+      unfold is_ident_char in Hic. rewrite Hna in Hic. exact Hic. }
+    set (m := join [95] (map (py_lower u_lower u_ign u_cased) (filter nonempty (split_on (fun c => negb (W c)) s)))).
+    assert (Hm : forallb is_us m = true).
+    { subst m. assert (J : forall ws, (forall w, In w ws -> forallb is_us w = true) -> forallb is_us (join [95] ws) = true).
+      { intros [|w ws] H; [reflexivity|]. unfold join. apply forallb_app_iff. split; [apply H; left; reflexivity|].
+        apply forallb_concat. intros l Hl. apply in_map_iff in Hl. destruct Hl as [y [<- Hy]]. simpl. apply H. right. exact Hy. }
+      apply J. intros w Hin. apply in_map_iff in Hin. destruct Hin as [w0 [<- Hw0]].
+      apply filter_In in Hw0. destruct Hw0 as [Hw0 _]. pose proof (Hw w0 Hw0) as Hus.
+      unfold py_lower. rewrite py_lower_go_ascii.
+      - apply forallb_forall. intros x Hx. apply in_map_iff in Hx. destruct Hx as [y [<- Hy]].
+        rewrite lower_ascii_us. rewrite forallb_forall in Hus. apply Hus, Hy.
+      - eapply forallb_imp; [|exact Hus]. intros x Hx. unfold is_us in Hx. apply N.eqb_eq in Hx. subst x. reflexivity. }
+    apply kw_res_suffix_valid.
+    destruct m as [|c m'] eqn:Em; cbn [or_unnamed].
+    - destruct unnamed_ok as [Hne [_ [Hid Hsd]]]. destruct s_unnamed as [|u us] eqn:Eu; [congruence|].
+      assert (Hasc : isdigit1 u_isdigit u = false).
+      { unfold isdigit1. simpl in Hid. apply andb_true_iff in Hid. destruct Hid as [Hst _].
+        assert (is_ascii u = true) by (apply ident_char_ascii; unfold is_ident_start, is_ident_char, is_alnum in *;
+                                        destruct (is_alpha u); simpl in *; [reflexivity | rewrite Hst; apply orb_true_r]).
+        rewrite H. exact Hsd. }
+      rewrite Hasc. exact Hid.
+    - simpl in Hm. apply andb_true_iff in Hm. destruct Hm as [Hc Hm'].
+      assert (Hd : isdigit1 u_isdigit c = false).
+      { unfold is_us in Hc. apply N.eqb_eq in Hc. subst c. reflexivity. }
+      rewrite Hd. apply is_ident_of_chars.
+      + unfold is_us in Hc. apply N.eqb_eq in Hc. subst c. reflexivity.
+      + eapply forallb_imp; [|exact Hm']. intros x Hx. unfold is_us in Hx. apply N.eqb_eq in Hx. subst x. reflexivity.
+  Qed.
+
   (* ---------------- sanitize_tag_class_name (partial) ---------------- *)
   Variable u_title : N -> str.
   Notation nal := (fun c => negb (is_alnum c)).
@@ -1068,4 +1141,11 @@ Proof.
   intros s H. unfold has_core in H. apply existsb_exists in H. destruct H as [c [Hin Hc]].
   unfold method_core, norm_us. intro E. apply map_eq_nil in E. revert E. apply norm_go_nonempty.
   exists c. split; [exact Hin | apply negb_true_iff, Hc].
+Qed.
+
+(* ================================================================= is_valid_python_identifier (F20i fixed) *)
+Theorem is_valid_python_identifier_spec : forall s, is_valid_python_identifier s = valid_name s.
+Proof.
+  intro s. unfold is_valid_python_identifier, valid_name. destruct s as [|c r]; [reflexivity|].
+  cbn [nonempty andb]. destruct (is_ident (c :: r)); destruct (is_kw (c :: r)); reflexivity.
 Qed.
